@@ -274,7 +274,35 @@ def check_C13(ctx):
                             '(deliberate, strictness comes from pre-removed options)', 'TLC, CommunityModules Json']}
 
 
-CHECKS = {'C13': check_C13, 'C19': check_C19, 'C05': check_C05, 'C15': check_C15, 'C11': check_C11, 'C09': check_C09, 'C10': check_C10, 'C01': check_C01, 'C02': check_C02, 'C03': check_C03, 'C04': check_C04, 'C06': check_C06,
+def check_C08(ctx):
+    from harness import layer_persist
+    res = runner.memo('persist', ctx, lambda: layer_persist.run(ctx))
+    viol = [{'clause': f['fails'][0][0], 'all_clauses': sorted({c[0] for c in f['fails']}), 'where': 'history %s' % json_short2(f['hist']),
+             'payload': {'layer': 'persist', 'g': f['g'], 'hist': f['hist']}} for f in res['fails']]
+    if not res['mc_ok']:
+        viol.append({'clause': 'C08.model_configuration_unexpected', 'where': 'DSGResolve with value semantics must satisfy Persist',
+                     'payload': {'layer': 'none'}})
+    cov = {'states': res['states'] + res['mc_states'], 'transitions': res['transitions'], 'traces_validated_against_impl': res['n_traces'],
+           'samples': res['samples'], 'evaluations': res['n_events'], 'distinct_nontrivial': res['nontrivial'],
+           'rule': 'per description TLC checks DSGResolve.tla (Persist and DegreesPersistent hold with value semantics; with node '
+                   'attributes shared between objects DegreesPersistent is violated - the design-level form of the known finding) and '
+                   'emits one shortest derive sequence per distinct abstract state over {Copy, TakeSel, ApplyConn, SetDV, ConstrainCopy, '
+                   'Decode} applied to ANY live object (<= 4 objects, depth 3 quick / 4 thorough); each sequence is replayed on real '
+                   'objects and after every operation every live object is observed again (node/edge sets by type, feasible, final, next '
+                   'choices, option lists, valid connection sets, connector degree attributes, stored values); non-trivial = sequence of '
+                   'length >= 2', 'descriptions': res['n_graphs'], 'model_checking': res['mc'][:6], 'operations': res['ops'],
+           'clause_counts_before_attribution': res['clause_counts'], 'exhaustive': False}
+    return {'level': 'model_checking', 'coverage': cov, 'violations': viol,
+            'assumptions': ['degree attributes are read from the node objects before any call that may recompute them',
+                            'operations the real object does not offer (choice not active, no valid set) are recorded as skipped',
+                            'TLC, CommunityModules Json']}
+
+
+def json_short2(h):
+    return ';'.join('%s(%s,%s,%s)' % (o['op'], o['p'], o['c'], o['k']) for o in h)[:160]
+
+
+CHECKS = {'C08': check_C08, 'C13': check_C13, 'C19': check_C19, 'C05': check_C05, 'C15': check_C15, 'C11': check_C11, 'C09': check_C09, 'C10': check_C10, 'C01': check_C01, 'C02': check_C02, 'C03': check_C03, 'C04': check_C04, 'C06': check_C06,
           'C07': check_C07, 'C14': check_C14, 'C16': check_C16}
 
 
@@ -284,6 +312,9 @@ def replay_payload(payload):
     if layer == 'graph':
         from harness import layer_graph
         return layer_graph.replay(payload['g'])
+    if layer == 'persist':
+        from harness import layer_persist
+        return layer_persist.replay(payload)
     if layer == 'tl':
         from harness import layer_tl
         return layer_tl.replay(payload)
